@@ -399,6 +399,98 @@ class CFG:
         reach = self.reachable([self.entry])
         return any(p in reach and not isinstance(byid[p].ast, ast.Return) for p, _ in byid[self.exit].pred)
 
+    # reaching definitions of local names: node id -> {name -> set of defining node ids}; -1 stands for "parameter / not
+    # assigned yet".  Definitions are statement nodes storing to a plain Name (Assign/AnnAssign/AugAssign/for/with/except/walrus).
+    def reaching_defs(self) -> dict[int, dict[str, frozenset[int]]]:
+        if getattr(self, "_rd", None) is not None:
+            return self._rd  # type: ignore[has-type]
+        gen: dict[int, set[str]] = {}
+        for n in self.nodes:
+            if n.ast is None or n.kind not in ("stmt", "test", "for", "with", "handler"):
+                continue
+            names: set[str] = set()
+            if n.kind == "for":
+                roots: list[ast.AST] = [n.ast.target]  # type: ignore[attr-defined]
+            elif n.kind == "with":
+                roots = [i.optional_vars for i in n.ast.items if i.optional_vars is not None]  # type: ignore[attr-defined]
+            elif n.kind == "handler":
+                if n.ast.name:  # type: ignore[attr-defined]
+                    names.add(n.ast.name)  # type: ignore[attr-defined]
+                roots = []
+            else:
+                roots = [n.ast]
+            for r in roots:
+                stack = [r]
+                while stack:
+                    x = stack.pop()
+                    if isinstance(x, (ast.FunctionDef, ast.AsyncFunctionDef, ast.Lambda, ast.ClassDef)) and x is not r:
+                        continue
+                    if isinstance(x, ast.Name) and isinstance(x.ctx, ast.Store):
+                        names.add(x.id)
+                    stack.extend(ast.iter_child_nodes(x))
+            if names:
+                gen[n.id] = names
+        universe = set().union(*gen.values()) if gen else set()
+        IN: dict[int, dict[str, frozenset[int]]] = {n.id: {} for n in self.nodes}
+        OUT: dict[int, dict[str, frozenset[int]]] = {n.id: {} for n in self.nodes}
+        IN[self.entry] = {nm: frozenset([-1]) for nm in universe}
+        work = [self.entry]
+        queued = {self.entry}
+        while work:
+            i = work.pop()
+            queued.discard(i)
+            if i != self.entry:
+                merged: dict[str, frozenset[int]] = {}
+                for p_, _lab in self.nodes[i].pred:
+                    for nm, ds in OUT[p_].items():
+                        merged[nm] = merged.get(nm, frozenset()) | ds
+                IN[i] = merged
+            cur = dict(IN[i])
+            for nm in gen.get(i, ()):
+                cur[nm] = frozenset([i])
+            if cur != OUT[i]:
+                OUT[i] = cur
+                for t, _lab in self.nodes[i].succ:
+                    if t not in queued:
+                        queued.add(t)
+                        work.append(t)
+        self._rd = IN
+        return IN
+
+    def symbolic(self, at: int, e: ast.AST, depth: int = 12) -> ast.AST:
+        """e as seen at node `at`, with every local whose single reaching definition is a plain `name = rhs` replaced by
+        rhs (itself evaluated at its definition).  Locals with several reaching definitions become `φ_<name>`;
+        parameters and names never assigned stay.  Sound only for rhs without side effects between definition and use -
+        callers compare shapes, they do not execute."""
+        import copy
+        rd = self.reaching_defs()
+        byid = self.nodes
+        me = self
+
+        class T(ast.NodeTransformer):
+            def __init__(self, at: int, depth: int) -> None:
+                self.at, self.depth = at, depth
+
+            def visit_Lambda(self, node):  # own scope
+                return node
+
+            def visit_Name(self, node: ast.Name):
+                if not isinstance(node.ctx, ast.Load):
+                    return node
+                ds = rd[self.at].get(node.id)
+                if not ds or ds == frozenset([-1]):
+                    return node
+                if len(ds) != 1 or self.depth <= 0:
+                    return ast.Name(id=f"φ_{node.id}", ctx=ast.Load())
+                (d,) = ds
+                st = byid[d].ast
+                if byid[d].kind == "stmt" and isinstance(st, (ast.Assign, ast.AnnAssign)) and st.value is not None:
+                    ts = st.targets if isinstance(st, ast.Assign) else [st.target]
+                    if len(ts) == 1 and isinstance(ts[0], ast.Name) and ts[0].id == node.id:
+                        return T(d, self.depth - 1).visit(copy.deepcopy(st.value))
+                return ast.Name(id=f"φ_{node.id}", ctx=ast.Load())
+        return ast.fix_missing_locations(T(at, depth).visit(copy.deepcopy(e)))
+
     def normal_only(self, s: int, t: int, lab: str) -> bool:
         return lab != "exc"
 
